@@ -46,7 +46,7 @@ for p in props:
         m["checks"].append({
           "property_id": p, "quick_cmd": f"./check.sh {p} quick", "thorough_cmd": f"./check.sh {p} thorough",
           "evidence_file": f"/verif/evidence/{p}.json", "replay_cmd_template": "./check.sh replay {path}", "engine": "simchain",
-          "level_claimed": {"category": "exploration", "text": "Seeded search over schedules, faults and histories (quick: 45 s, thorough: 15 min on 16 cores); " + txt + ". A clean run is evidence, not proof.", "design_ref": "DESIGN.md section " + ref},
+          "level_claimed": {"category": "exploration", "text": "Seeded search over schedules, faults and histories (quick: 60 s, thorough: 15 min on 16 cores); " + txt + ". A clean run is evidence, not proof.", "design_ref": "DESIGN.md section " + ref},
           "level_note": "Trusted base: Cosmos SDK BaseApp/bank/ORM/IAVL (unmodified deps), generated ORM code, the harness' own reference oracles (math/big, never types/math). Ante handler reduced, gov/consensus/IBC stubbed.",
           "technique": T})
     elif p in NA:
